@@ -175,7 +175,7 @@ func runC11(c *Ctx) {
 			}
 		}
 		if n < 4 {
-			anchorFail("C11-D2: found %d BigEndian calls in the transports, expected at least 4", n)
+			c.Undecided("C11-D2: found %d BigEndian calls in the transports, expected at least 4", n)
 		}
 	}
 	c11Reader(c)
@@ -353,7 +353,7 @@ func c11Reader(c *Ctx) {
 			if al, ok := in.(*ssa.Alloc); ok {
 				if at, ok := deref(al.Type()).Underlying().(*types.Array); ok && at.Len() == 1 {
 					if first != nil {
-						anchorFail("C11-D2: two [1]byte locals in nextPacketWithLimit")
+						c.Undecided("C11-D2: two [1]byte locals in nextPacketWithLimit")
 					}
 					first = al
 				}
